@@ -119,6 +119,14 @@ func (vc *VC) define(hint, sort, term string) string {
 		return term
 	}
 	n := vc.fresh(hint)
+	if sort != "Bool" && strings.Contains(term, "(ite ") {
+		// a value that is a case split (phi merge, in-place or reallocating append):
+		// name it by a constant rather than a macro, so that triggers mentioning it
+		// stay usable (solvers reject patterns that contain ite once the macro is
+		// expanded, and then choose their own)
+		vc.decls = append(vc.decls, fmt.Sprintf("(declare-const %s %s)\n(assert (= %s %s))", n, sort, n, term))
+		return n
+	}
 	vc.decls = append(vc.decls, fmt.Sprintf("(define-fun %s () %s %s)", n, sort, term))
 	return n
 }
